@@ -786,7 +786,8 @@ class Interp:
         if isinstance(obj, (ModuleNS, NamedTuple, ExcVal)):
             return getattr(obj, name)
         if isinstance(obj, SuperProxy):
-            fs = source.find_method(obj.obj.mod, obj.cls, name, skip_first=True)
+            clsmod = next((m for m, c in source.mro(obj.obj.mod, obj.obj.clsnode) if c is obj.cls), obj.obj.mod)
+            fs = source.find_method(clsmod, obj.cls, name, skip_first=True)
             if fs is None:
                 raise Undecided(f"super().{name} not found")
             return self.method_of(obj.obj, fs)
@@ -859,9 +860,13 @@ class Interp:
 
     def ex_Call(self, e, env):
         # super()
-        if isinstance(e.func, ast.Name) and e.func.id == "super" and not e.args:
+        if isinstance(e.func, ast.Name) and e.func.id == "super":
             f = env.func
             selfv = env.get(f.node.args.args[0].arg, self)
+            if e.args:
+                # super(Cls, self): start the lookup after Cls
+                cref = self.ev(e.args[0], env)
+                return SuperProxy(selfv, cref.clsnode if isinstance(cref, ClassRef) else f.cls)
             return SuperProxy(selfv, f.cls)
         fn = self.ev(e.func, env)
         args = []
